@@ -9,7 +9,7 @@ import (
 	"verifharness/internal/val"
 )
 
-var c06Floor = []string{"distinct", "distinct.star", "distinct.multi", "distinct.dups", "distinct.lookalike", "union.all", "union.distinct", "union.mixed", "chain.2", "chain.3", "chain.4", "union.limit", "union.limit.offset", "union.dups", "where"}
+var c06Floor = []string{"distinct", "distinct.star", "distinct.multi", "distinct.dups", "distinct.lookalike", "distinct.grouped", "distinct.derived", "distinct.cte", "union.all", "union.distinct", "union.mixed", "chain.2", "chain.3", "chain.4", "union.limit", "union.limit.offset", "union.dups", "where"}
 
 func init() {
 	fw.Register(&fw.Prop{
@@ -106,6 +106,30 @@ func c06Run(c *fw.Case) {
 		w := whereOf()
 		plain := "SELECT " + sel + " FROM t1" + w
 		dsql := "SELECT DISTINCT " + sel + " FROM t1" + w
+		// DISTINCT is a property of the output rows whatever produced them:
+		// grouped, derived, CTE and ordered sources
+		shape := ""
+		switch {
+		case strings.HasPrefix(force, "distinct.") && force != "distinct.star" && force != "distinct.multi" && force != "distinct.dups" && force != "distinct.lookalike":
+			shape = strings.TrimPrefix(force, "distinct.")
+		case force == "" && c.Chance(0.35):
+			shape = gen.Pick(c.R, []string{"grouped", "derived", "cte"})
+		}
+		switch shape {
+		case "grouped":
+			// the select list drops a grouping key, so different groups give equal rows
+			body := gen.Pick(c.R, []string{"a FROM t1" + w + " GROUP BY a, b", "a, COUNT(*) AS n FROM t1" + w + " GROUP BY a, b", "b, COUNT(*) AS n FROM t1" + w + " GROUP BY b, a"})
+			plain, dsql = "SELECT "+body, "SELECT DISTINCT "+body
+		case "derived":
+			plain = "SELECT q.a, q.b FROM (SELECT a, b, c FROM t1" + w + ") q"
+			dsql = "SELECT DISTINCT q.a, q.b FROM (SELECT a, b, c FROM t1" + w + ") q"
+		case "cte":
+			plain = "WITH c1 AS (SELECT a, b FROM t1" + w + ") SELECT a FROM c1"
+			dsql = "WITH c1 AS (SELECT a, b FROM t1" + w + ") SELECT DISTINCT a FROM c1"
+		}
+		if shape != "" {
+			feats = append(feats, "distinct."+shape)
+		}
 		p := Run(doc(), plain)
 		d := Run(doc(), dsql)
 		feats = append(feats, "distinct")
